@@ -88,7 +88,14 @@ var specs = []spec{
 	// extended subset
 	{File: "cluster/placement.go", Func: "distributePoints", Module: "Placement", Ext: true, Oracles: []string{"createShardFn"},
 		Structs: []structSpec{{File: "cluster/actions.go", Name: "shardInfo"}, {File: "models/point.go", Name: "Point"}}},
+	{File: "shard/idcounter.go", Func: "MaxId", Recv: "IdCounter", Module: "IdCounter", Ext: true, Structs: idCounterFields},
+	{File: "shard/idcounter.go", Func: "NextId", Recv: "IdCounter", Module: "IdCounter", Ext: true, Structs: idCounterFields},
+	{File: "shard/idcounter.go", Func: "FreeId", Recv: "IdCounter", Module: "IdCounter", Ext: true, Structs: idCounterFields},
 }
+
+// the in-memory part of shard.IdCounter (the bucket and its keys are storage, not translated)
+var idCounterFields = []structSpec{{File: "shard/idcounter.go", Name: "IdCounter", Only: []string{"freeIds", "nextFreeId"}}}
+
 
 func fail(pos token.Position, format string, a ...any) {
 	fmt.Fprintf(os.Stderr, "go2lean: %s: unsupported: %s\n", pos, fmt.Sprintf(format, a...))
